@@ -50,14 +50,28 @@ OUT_JSON = os.path.join(C.COQ, "Gen", "CSkeleton.json")
 # callees first
 FUNCS = ["LB_clear", "LB_changed", "VB_clear", "_subcache", "_getcache", "_lookup", "_lookup1",
          "_adapter_hook", "_lookupAll", "_subscriptions", "_generations_tuple", "verify_changed", "_verify"]
-FN_ID = {n: i for i, n in enumerate(FUNCS)}
+# Further C functions on lookup paths: extracted when their shape is accepted, otherwise they stay entries
+# of the API table (EXT_TABLE) and are LISTED as such in the evidence.  Callees first.
+EXT_FUNCS = ["SB_extends", "_foreign_decl_implies", "implementedByFallback", "implementedBy",
+             "getObjectSpecification", "providedBy", "CPB_descr_get", "OSD_descr_get", "IB__adapt__", "IB__call__"]
+ALL_FUNCS = EXT_FUNCS + FUNCS
+FN_ID = {n: i for i, n in enumerate(FUNCS + EXT_FUNCS)}
+NULLABLE_FIELDS = {"_implied", "_cls", "_implements"}     # object slots the code tests against NULL
+NONNULL_FIELDS = {"tp_dict"}
+STATIC_FIELDS = {"ob_type", "fallback", "empty", "builtin_impl_specs", "implements_class", "adapter_hooks",
+                 "specification_base_class", "interface_base_class"}   # module state / types: never freed
+# borrowed items of containers that live in the module state are read through pseudo owner slots
+PSEUDO_SLOTS = {"adapter_hooks": 8, "builtin_impl_specs": 9}
 INLINE = {"LB_clear", "VB_clear"}
 SLOTS = {"_cache": 0, "_mcache": 1, "_scache": 2, "_verify_ro": 3, "_verify_generations": 4}
 SLOT_KIND = {"_cache": "KDict", "_mcache": "KDict", "_scache": "KDict", "_verify_ro": "KTuple",
              "_verify_generations": "KTuple"}
 RET_KIND = {"_generations_tuple": "KTuple"}      # checked against the callee's own returns
-TYPE_NAMES = {"PyObject", "int", "LB", "VB", "PyTypeObject", "Py_ssize_t"}
-STATIC_ID = re.compile(r"^(str\w*|PyExc_\w+|Py_(NE|EQ|LT|GT|LE|GE)|Py\w+_Type)$")
+TYPE_NAMES = {"PyObject", "int", "LB", "VB", "PyTypeObject", "Py_ssize_t", "_zic_module_state", "SB", "CPB", "IB",
+              "Py_hash_t"}
+OBJECT_TYPES = {"PyObject", "SB", "CPB", "IB"}       # pointers to reference-counted objects
+SELF_STATIC_TYPES = {"LB", "VB"}                      # ``self`` of the lookup classes: owner slots, no events
+STATIC_ID = re.compile(r"^(str\w*|PyExc_\w+|Py_(NE|EQ|LT|GT|LE|GE)|Py\w+_Type|kwlist)$")
 
 # ret: "new:<kind>" | "int:<values>" | "void" | "static"; py: may run Python; fail: may return NULL;
 # uses: indices of the pointer arguments that are dereferenced ("*" = all)
@@ -70,15 +84,35 @@ TABLE = {
     "PyObject_CallMethodObjArgs": dict(ret="new:KOther", py=True, fail=True, uses="*"),
     "PyObject_CallFunctionObjArgs": dict(ret="new:KOther", py=True, fail=True, uses="*"),
     "PyObject_RichCompareBool": dict(ret="int:-1,0,1", py=True, uses=[0, 1]),
-    "PyObject_IsTrue": dict(ret="int:0,1", py=True, uses=[0]),
+    "PyObject_IsTrue": dict(ret="int:-1,0,1", py=True, uses=[0]),
     "PyUnicode_Check": dict(ret="int:0,1", py=False, uses=[0]),
     "PyObject_TypeCheck": dict(ret="int:0,1", py=False, uses=[0]),
     "PyTuple_GET_SIZE": dict(ret="int:?", py=False, uses=[0], tuple_arg=0),
     "PyErr_SetString": dict(ret="void", py=False, uses=[]),
-    "providedBy": dict(ret="new:KOther", py=True, fail=True, uses=[1]),
+    "PyObject_IsInstance": dict(ret="int:-1,0,1", py=True, uses=[0]),
+    "PyErr_ExceptionMatches": dict(ret="int:0,1", py=False, uses=[]),
+    "PyErr_Clear": dict(ret="void", py=True, uses=[]),          # releasing the exception can run destructors
+    "PyErr_SetObject": dict(ret="void", py=False, uses=[1]),
+    "PyObject_GetItem": dict(ret="new:KOther", py=True, fail=True, uses=[0]),
+    "PyObject_GetAttrString": dict(ret="new:KOther", py=True, fail=True, uses=[0]),
+    "PyObject_CallMethod": dict(ret="new:KOther", py=True, fail=True, uses="*"),
+    "PyObject_CallObject": dict(ret="new:KOther", py=True, fail=True, uses="*"),
+    "PySequence_Contains": dict(ret="int:-1,0,1", py=True, uses=[0, 1]),
+    "PyType_Check": dict(ret="int:0,1", py=False, uses=[0]),
+    "PyDict_GetItemString": dict(ret="int:0,1", py=False, uses=[0]),   # only ever tested for presence
+    "Py_BuildValue": dict(ret="new:KTuple", py=False, fail=True, uses="*"),
+    "PyList_GET_SIZE": dict(ret="int:?", py=False, uses=[0]),
+    "_zic_state_load_declarations": dict(ret="static?", py=True, uses=[]),   # imports on first use
+    "_zic_state": dict(ret="static", py=False, uses=[]),
+    "_get_specification_base_class": dict(ret="static", py=False, uses=[]),
+    "_get_adapter_hooks": dict(ret="static:adapter_hooks", py=False, uses=[]),
+    "TYPE": dict(ret="passthrough", py=False, uses=[]),
     "_get_module": dict(ret="static", py=False, uses=[]),
+    "providedBy": dict(ret="new:KOther", py=True, fail=True, uses=[1]),
     "Py_TYPE": dict(ret="static", py=False, uses=[]),
 }
+# what a function of EXT_FUNCS is to its callers while it is not extracted
+EXT_TABLE = {n: dict(ret="new:KOther", py=True, fail=True, uses="*") for n in EXT_FUNCS}
 ALLOC_ONLY = {"PyDict_New", "PyTuple_New"}   # fail only when memory is exhausted
 SPECIAL = {"PyDict_GetItem", "PyDict_GetItemWithError", "PyErr_Occurred", "PyDict_SetItem", "PyTuple_GET_ITEM", "PyTuple_SET_ITEM", "Py_INCREF", "Py_XINCREF",
            "Py_DECREF", "Py_XDECREF", "Py_CLEAR", "Py_XSETREF", "OBJECT"}
@@ -146,7 +180,18 @@ class Parser:
         k, v, line = self.peek()
         if v == "{":
             return self.block()
-        if v in ("goto", "while", "do", "switch", "break", "continue", "case", "default"):
+        if v == "goto":
+            self.next()
+            lk, lv, _ll = self.next()
+            if lk != "id":
+                raise Abort("bad goto at line %d" % line)
+            self.expect(";")
+            return ("goto", lv, line)
+        if k == "id" and self.peek(1)[1] == ":" and v not in ("default", "case"):
+            self.next()
+            self.next()
+            return ("label", v, line)
+        if v in ("while", "do", "switch", "break", "continue", "case", "default"):
             raise Abort("unsupported control flow %r at line %d" % (v, line))
         if v == "if":
             self.next()
@@ -179,7 +224,26 @@ class Parser:
         if k == "id" and v in TYPE_NAMES and self.peek(1)[1] != "(":
             return self.decl()
         if v == "static":
-            raise Abort("static local at line %d" % line)
+            # ``static char* kwlist[] = { .. };`` -- an array of string constants
+            j, depth, ok = 0, 0, False
+            while True:
+                tok = self.peek(j)
+                if tok[0] == "eof":
+                    break
+                if tok[1] == "{":
+                    depth += 1
+                elif tok[1] == "}":
+                    depth -= 1
+                elif tok[1] == ";" and depth == 0:
+                    ok = True
+                    break
+                elif tok[0] not in ("str", "op", "num") and tok[1] not in ("static", "char", "kwlist", "NULL"):
+                    break
+                j += 1
+            if not ok:
+                raise Abort("static local at line %d" % line)
+            self.i += j + 1
+            return ("skip",)
         e = self.expr()
         self.expect(";")
         return ("expr", e, line)
@@ -216,7 +280,7 @@ class Parser:
         return ("block", out)
 
     def decl(self):
-        _k, _ty, line = self.next()
+        _k, ty, line = self.next()
         out = []
         while True:
             ptr = 0
@@ -236,7 +300,7 @@ class Parser:
                 continue
             break
         self.expect(";")
-        return ("decl", out, line)
+        return ("decl", out, line, ty)
 
     # expressions
     def expr(self):
@@ -297,7 +361,9 @@ class Parser:
         if k == "num":
             e = ("num", int(v))
         elif k == "str":
-            e = ("str",)
+            while self.peek()[0] == "str":      # adjacent string literals
+                self.next()
+            e = ("str", v)
         elif k == "id":
             if self.at("("):
                 self.next()
@@ -350,10 +416,7 @@ def find_function(text, name):
             if depth == 0:
                 break
         i += 1
-    body = text[start:i + 1]
-    for ln in body.split("\n"):
-        if ln.lstrip().startswith("#"):
-            raise Abort("preprocessor directive inside %s: %s" % (name, ln.strip()))
+    body = preprocess(text[start:i + 1], name)
     params = []
     for part in m.group(2).split(","):
         part = part.strip()
@@ -363,6 +426,48 @@ def find_function(text, name):
         params.append((pm.group(3), pm.group(1), bool(pm.group(2))))
     rtype = re.sub(r"\s+", "", m.group(1))
     return rtype, params, body, text[:start].count("\n") + 1
+
+
+def _pp_value(cond, name):
+    """value of a preprocessor condition made of the two build switches of this file"""
+    import sys
+    heap = 1 if sys.hexversion >= 0x030b0000 else 0
+    known = {"USE_HEAP_TYPES": heap, "USE_STATIC_TYPES": 1 - heap}
+    c = cond.strip()
+    m = re.match(r"^(\w+)$", c)
+    if m and c in known:
+        return bool(known[c])
+    m = re.match(r"^(\w+)\s*&&\s*PY_VERSION_HEX\s*>\s*(0x[0-9a-fA-F]+)$", c)
+    if m and m.group(1) in known:
+        return bool(known[m.group(1)]) and sys.hexversion > int(m.group(2), 16)
+    raise Abort("preprocessor condition %r inside %s" % (cond, name))
+
+
+def preprocess(body, name):
+    """resolve #if / #else / #endif inside a function body (lines are kept, so line numbers stay)"""
+    out, stack = [], []          # stack of [taking, seen_else]
+    for ln in body.split("\n"):
+        t = ln.strip()
+        if t.startswith("#"):
+            d = t[1:].strip()
+            if d.startswith("if ") and not d.startswith("ifdef") and not d.startswith("ifndef"):
+                stack.append([_pp_value(d[3:], name), False])
+            elif d.startswith("else"):
+                if not stack or stack[-1][1]:
+                    raise Abort("stray #else inside %s" % name)
+                stack[-1] = [not stack[-1][0], True]
+            elif d.startswith("endif"):
+                if not stack:
+                    raise Abort("stray #endif inside %s" % name)
+                stack.pop()
+            else:
+                raise Abort("preprocessor directive inside %s: %s" % (name, t))
+            out.append("")
+        else:
+            out.append(ln if all(x[0] for x in stack) else "")
+    if stack:
+        raise Abort("unterminated #if inside %s" % name)
+    return "\n".join(out)
 
 
 def find_macros(text):
@@ -404,6 +509,7 @@ class FnCtx:
         self.params = []       # ids
         self.tparams = []
         self.optional = set()  # ids of parameters that the code NULL-tests
+        self.late_params = []  # outputs of PyArg_ParseTuple*: parameters, but not of the C signature
         self.summaries = summaries
         self.notes = []
 
@@ -425,6 +531,7 @@ class Exec:
     def __init__(self, text, macros, summaries):
         self.text, self.macros, self.summaries = text, macros, summaries
         self.parsed = {}
+        self.failed = {}       # EXT function -> why it is not extracted
 
     def parse(self, name):
         if name not in self.parsed:
@@ -472,7 +579,7 @@ class Exec:
         if k == "num":
             return [(st, ("int", e[1]))]
         if k == "str":
-            return [(st, STATIC)]
+            return [(st, ("static", "str", e[1] if len(e) > 1 else ""))]
         if k == "un" and e[1] == "-":
             out = []
             for s, v in self.values(fx, st, e[2]):
@@ -482,6 +589,8 @@ class Exec:
             return out
         if k == "un" and e[1] == "&":
             inner = e[2]
+            if inner[0] == "id" and inner[1] in st.names:
+                return [(st, ("addr", inner[1]))]
             if inner[0] == "id" and STATIC_ID.match(inner[1]):
                 return [(st, STATIC)]
             raise Abort("address-of %s" % canon(inner))
@@ -504,7 +613,7 @@ class Exec:
         if k == "field":
             slot = self.slot_of(e)
             if slot is None:
-                raise Abort("unsupported field access %s at line %d" % (e[2], e[3]))
+                return self.field(fx, st, e)
             kn = st.slotk.get(slot)
             if kn == "null":
                 return [(st, NULL)]
@@ -522,6 +631,40 @@ class Exec:
         if k == "postinc":
             raise Abort("++ outside a for header")
         raise Abort("unsupported expression %s" % canon(e))
+
+    def field(self, fx, st, e):
+        """``x->f`` where x is a reference-counted object or module state"""
+        _k, base, fname, line = e
+        out = []
+        for s, b in self.values(fx, st, base):
+            if b[0] == "static":
+                if fname in STATIC_FIELDS or fname in NONNULL_FIELDS:
+                    out.append((s, ("static", fname) if fname in PSEUDO_SLOTS else STATIC))
+                else:
+                    raise Abort("field %s of a static object at line %d" % (fname, line))
+            elif b[0] == "obj":
+                if fname in STATIC_FIELDS:
+                    out.append((s, STATIC))
+                elif fname in NONNULL_FIELDS or fname in NULLABLE_FIELDS:
+                    s.events.append(("EUse", b[1]))
+                    if fname in NULLABLE_FIELDS:
+                        key = "fieldnull(%d,%s)" % (b[1], fname)
+                        for s2, isnull in self.fork_fact(s, key, "%s->%s is NULL" % (fx.labels[b[1]], fname)):
+                            if isnull:
+                                out.append((s2, NULL))
+                            else:
+                                i = fx.newid(("field", fname, line), "%s->%s@%d" % (fx.labels[b[1]], fname, line))
+                                s2.events.append(("EFetchItem", i, b[1]))
+                                out.append((s2, ("obj", i)))
+                    else:
+                        i = fx.newid(("field", fname, line), "%s->%s@%d" % (fx.labels[b[1]], fname, line))
+                        s.events.append(("EFetchItem", i, b[1]))
+                        out.append((s, ("obj", i)))
+                else:
+                    raise Abort("unsupported field access %s at line %d" % (fname, line))
+            else:
+                raise Abort("field %s of %r at line %d" % (fname, b, line))
+        return out
 
     def assign(self, fx, st, e):
         _k, lhs, rhs, line = e
@@ -561,7 +704,7 @@ class Exec:
 
     def call(self, fx, st, e):
         _k, fname, arglist, line = e
-        if fname == "OBJECT":
+        if fname in ("OBJECT", "TYPE"):
             return self.values(fx, st, arglist[0])
         out = []
         if fname in ("Py_INCREF", "Py_XINCREF", "Py_DECREF", "Py_XDECREF", "Py_CLEAR"):
@@ -632,6 +775,35 @@ class Exec:
             out.extend(self.apply(fx, s, fname, vs, line))
         return out
 
+    def parse_args(self, fx, st, fname, vs, line):
+        """PyArg_ParseTuple[AndKeywords]: the outputs are items of the caller's argument tuple / keyword
+        dictionary, which the caller keeps alive and nobody else can reach: they are treated as further
+        (borrowed) parameters of the function; the ones after ``|`` may stay NULL."""
+        fmt = None
+        for v in vs:
+            if v[0] == "static" and len(v) > 2 and v[1] == "str":
+                fmt = v[2].strip('"')
+                break
+        outs = [v[1] for v in vs if v[0] == "addr"]
+        if fmt is None or not re.match(r"^O*\|?O*(:[\w.]+)?$", fmt):
+            raise Abort("%s with format %r at line %d" % (fname, fmt, line))
+        core = fmt.split(":")[0]
+        required = core.split("|")[0].count("O")
+        if core.count("O") != len(outs):
+            raise Abort("%s: %d outputs for format %r at line %d" % (fname, len(outs), fmt, line))
+        bad = st.fork()
+        bad.trail.append("L%d %s: fails" % (line, fname))
+        st.trail.append("L%d %s: ok" % (line, fname))
+        for j, name in enumerate(outs):
+            i = fx.newid(("argout", name), name)
+            if i not in fx.params:
+                fx.params.append(i)
+                fx.late_params.append(i)
+            if j >= required:
+                fx.optional.add(i)
+            st.names[name] = ("obj", i)
+        return [(bad, ("int", 0)), (st, ("int", 1))]
+
     def inline(self, fx, st, fname, line):
         rtype, params, ast = self.parse(fname)
         saved = st.names
@@ -653,6 +825,31 @@ class Exec:
             if st.err is None:
                 raise Abort("PyErr_Occurred() at line %d does not follow a PyDict_GetItemWithError" % line)
             return [(st, ("int", 1 if st.err else 0))]
+        if fname in ("PyArg_ParseTupleAndKeywords", "PyArg_ParseTuple"):
+            return self.parse_args(fx, st, fname, vs, line)
+        if fname == "PyList_GET_ITEM":
+            lst = vs[0]
+            if lst[0] != "static" or len(lst) < 2 or lst[1] not in PSEUDO_SLOTS:
+                raise Abort("PyList_GET_ITEM on %r (line %d)" % (lst, line))
+            # a borrowed item of a list that lives in the module state: read through a pseudo owner slot
+            i = fx.newid(("listitem", line), "%s[i]@%d" % (lst[1], line))
+            st.events.append(("EAssumeSlot", PSEUDO_SLOTS[lst[1]], True))
+            st.events.append(("EFetchSlot", i, PSEUDO_SLOTS[lst[1]]))
+            return [(st, ("obj", i))]
+        if fname in ("PyDict_GetItem", "PyDict_GetItemWithError") and vs[0][0] == "static":
+            d, key = vs
+            if len(d) < 2 or d[1] not in PSEUDO_SLOTS:
+                raise Abort("%s on %r (line %d)" % (fname, d, line))
+            self.use(st, key)
+            st.events.append(("EKeyCall",))
+            self.use(st, key)
+            miss = st.fork()
+            miss.trail.append("L%d %s: miss" % (line, fname))
+            st.trail.append("L%d %s: hit" % (line, fname))
+            i = fx.newid(("getitem", line), "item@%d" % line)
+            st.events.append(("EAssumeSlot", PSEUDO_SLOTS[d[1]], True))
+            st.events.append(("EFetchSlot", i, PSEUDO_SLOTS[d[1]]))
+            return [(miss, NULL), (st, ("obj", i))]
         if fname in ("PyDict_GetItem", "PyDict_GetItemWithError"):
             d, key = vs
             if d[0] != "obj":
@@ -706,17 +903,31 @@ class Exec:
                 raise Abort("PyTuple_SET_ITEM(%r, .., %r) at line %d" % (t, val, line))
             st.events.append(("EStealItem", t[1], val[1]))
             return [(st, ("void",))]
-        if fname in self.summaries or fname in FUNCS:
+        if fname in self.summaries or (fname in ALL_FUNCS and fname not in self.failed):
             if fname not in self.summaries:
                 raise Abort("%s calls %s which is extracted later (recursion?)" % (fx.name, fname))
             summ = self.summaries[fname]
             st.err = None
-            args = []
-            for pos, v in enumerate(vs):
-                if v[0] in ("obj", "item") and st.nullk.get(v[1]) is not True:
+            args, temps = [], []
+            # one entry per pointer parameter of the callee, in its order
+            for pos in summ["param_pos"]:
+                v = vs[pos]
+                if pos not in summ["mentioned_pos"]:
+                    args.append(None)            # the callee never touches this parameter
+                elif v[0] in ("obj", "item") and st.nullk.get(v[1]) is not True:
                     args.append(v[1])
                     if pos in summ["tparam_pos"]:
                         self.require_tuple(fx, v, "tuple parameter of " + fname, line)
+                elif v[0] in ("none", "static") and pos in summ["mentioned_pos"]:
+                    # a constant object: the caller is modelled as holding a temporary reference over the call
+                    t = fx.newid(("statarg", fname, line, pos), "const-arg%d-of-%s@%d" % (pos, fname, line))
+                    st.events.append(("ENewRef", t))
+                    temps.append(t)
+                    args.append(t)
+                elif v[0] in ("none", "static", "null") or (v[0] == "obj" and st.nullk.get(v[1]) is True):
+                    args.append(None)
+                else:
+                    raise Abort("argument %d of %s is %r at line %d" % (pos, fname, v, line))
             if summ["ret"] == "ptr":
                 bad = st.fork()
                 bad.trail.append("L%d %s: returns NULL" % (line, fname))
@@ -724,11 +935,17 @@ class Exec:
                 st.trail.append("L%d %s: ok" % (line, fname))
                 i = fx.newid(("call", fname, line), "%s()@%d" % (fname, line), RET_KIND.get(fname, "KOther"))
                 st.events.append(("ECall", FN_ID[fname], args, i))
+                for t in temps:
+                    bad.events.append(("EDecref", t))
+                    st.events.append(("EDecref", t))
                 return [(bad, NULL), (st, ("obj", i))]
             raise Abort("call of %s (returns %s) is not supported at line %d" % (fname, summ["ret"], line))
-        if fname not in TABLE:
+        if fname in self.failed:
+            t = EXT_TABLE[fname]
+        elif fname not in TABLE:
             raise Abort("unknown callee %s at line %d (in %s)" % (fname, line, fx.name))
-        t = TABLE[fname]
+        else:
+            t = TABLE[fname]
         st.err = None
         if "tuple_arg" in t:
             self.require_tuple(fx, vs[t["tuple_arg"]], fname, line)
@@ -744,6 +961,13 @@ class Exec:
             return [(st, ("void",))]
         if ret == "static":
             return [(st, STATIC)]
+        if ret.startswith("static:"):
+            return [(st, ("static", ret.split(":")[1]))]
+        if ret == "static?":
+            bad = st.fork()
+            bad.trail.append("L%d %s: fails" % (line, fname))
+            st.trail.append("L%d %s: ok" % (line, fname))
+            return [(bad, NULL), (st, STATIC)]
         if ret.startswith("int:"):
             vals = ret[4:]
             if vals == "?":
@@ -886,14 +1110,25 @@ class Exec:
         live = [st]
         done = []
         declared = []
+        jumping = []         # (state, label): skipping forward to a label of this block
         for stmt in node[1]:
+            if stmt[0] == "label":
+                live = live + [s for s, lab in jumping if lab == stmt[1]]
+                jumping = [(s, lab) for s, lab in jumping if lab != stmt[1]]
+                continue
             nxt = []
             for s in live:
                 for s2, how in self.stmt(fx, s, stmt, declared):
-                    (nxt if how[0] == "fall" else done).append((s2, how))
+                    if how[0] == "fall":
+                        nxt.append((s2, how))
+                    elif how[0] == "goto":
+                        jumping.append((s2, how[1]))
+                    else:
+                        done.append((s2, how))
             live = [s for s, _h in nxt]
-            if len(live) + len(done) > 4000:
+            if len(live) + len(done) + len(jumping) > 4000:
                 raise Abort("path explosion in %s" % fx.name)
+        done = done + [(s, ("goto", lab)) for s, lab in jumping]     # resolved by an enclosing block
         for s in live:
             for name, old in declared:
                 if old is None:
@@ -906,6 +1141,15 @@ class Exec:
         k = node[0]
         if k == "block":
             return self.block(fx, st, node)
+        if k == "skip":
+            return [(st, ("fall", None))]
+        if k == "goto":
+            st.trail.append("L%d goto %s" % (node[2], node[1]))
+            return [(st, ("goto", node[1]))]
+        if k == "label":
+            raise Abort("label %s inside a nested statement" % node[1])
+        if k == "expr" and node[1][0] == "id" and node[1][1] in ("Py_RETURN_TRUE", "Py_RETURN_FALSE", "Py_RETURN_NONE"):
+            return [(st, ("ret", ("none",)))]       # a new reference to a constant object
         if k == "decl":
             res = [st]
             for name, init, isptr in node[1]:
@@ -946,12 +1190,18 @@ class Exec:
         _k, init, cond, step, body, line = node
         ok = (init[0] == "assign" and init[1][0] == "id" and init[2] == ("num", 0)
               and cond[0] == "bin" and cond[1] == "<" and cond[2][0] == "id" and cond[2][1] == init[1][1]
-              and cond[3][0] == "id" and step == ("postinc", ("id", init[1][1], step[1][2] if step[0] == "postinc" else 0)))
-        if not ok:
+              and step == ("postinc", ("id", init[1][1], step[1][2] if step[0] == "postinc" else 0)))
+        # the bound: a variable holding a cached size, or the size read again before every iteration
+        fresh_bound = ok and cond[3][0] == "call" and cond[3][1] in ("PyTuple_GET_SIZE", "PyList_GET_SIZE")
+        if not ok or not (cond[3][0] == "id" or fresh_bound):
             raise Abort("unsupported loop shape at line %d" % line)
-        ivar, lvar = init[1][1], cond[3][1]
-        if st.names.get(lvar, ("x",))[0] != "unk" or not st.names[lvar][1].startswith("PyTuple_GET_SIZE"):
-            raise Abort("loop bound %s at line %d is not a PyTuple_GET_SIZE" % (lvar, line))
+        ivar = init[1][1]
+        cached_list = False
+        if not fresh_bound:
+            lvar = cond[3][1]
+            if st.names.get(lvar, ("x",))[0] != "unk" or not st.names[lvar][1].startswith(("PyTuple_GET_SIZE", "PyList_GET_SIZE")):
+                raise Abort("loop bound %s at line %d is not a PyTuple_GET_SIZE / PyList_GET_SIZE" % (lvar, line))
+            cached_list = st.names[lvar][1].startswith("PyList_GET_SIZE")
         out = []
         for n in (0, 1, 2):
             s0 = st.fork()
@@ -959,7 +1209,15 @@ class Exec:
             live = [s0]
             for j in range(n):
                 nxt = []
+                if fresh_bound:
+                    live = [s2 for s in live for s2, _v in self.values(fx, s, cond[3])]
                 for s in live:
+                    if cached_list and j >= 1:
+                        # the list may have shrunk while the previous iteration ran Python code: item j
+                        # is read beyond its current length.  Not expressible in the model: poison the path.
+                        bad = fx.newid(("poison", line), "item-beyond-the-current-length-of-the-list@%d" % line)
+                        s.trail.append("L%d the cached length of a list is used after the body ran" % line)
+                        s.events.append(("EUse", bad))
                     s.names[ivar] = ("int", j)
                     for s2, how in self.stmt(fx, s, body, []):
                         if how[0] == "fall":
@@ -979,10 +1237,12 @@ class Exec:
         st = State()
         optional_names = set()
         src = canon(ast)
-        for pname, pty, isptr in params:
-            if pname == "self" or pty in ("LB", "VB"):
-                st.names[pname] = STATIC
+        ppos = {}
+        for cpos, (pname, pty, isptr) in enumerate(params):
+            if pty in SELF_STATIC_TYPES or (isptr and pty not in OBJECT_TYPES):
+                st.names[pname] = STATIC      # the lookup object itself / module state / a type
             elif isptr:
+                ppos[cpos] = pname
                 i = fx.newid(("param", pname), pname)
                 fx.params.append(i)
                 st.names[pname] = ("obj", i)
@@ -994,12 +1254,21 @@ class Exec:
                 st.names[pname] = ("unk", "param:" + pname)
         paths = []
         for s, (how, v) in self.block(fx, st, ast):
+            if how == "goto":
+                raise Abort("%s: goto %s does not jump forward to a label of an enclosing block" % (name, v))
             if how == "fall":
                 if rtype != "void":
                     raise Abort("%s: control reaches the end of a non-void function" % name)
                 v = ("void",)
             if v[0] == "obj" and s.nullk.get(v[1]) is not True:
                 s.events.append(("EReturn", v[1]))
+            elif v[0] in ("none", "static") and rtype.endswith("*") and rtype.startswith("PyObject"):
+                # a new reference to a constant object (Py_None, Py_True, the empty declaration ..)
+                t = fx.newid(("constret",), "constant")
+                s.events.append(("ENewRef", t))
+                s.events.append(("EReturn", t))
+            elif v[0] == "item":
+                raise Abort("%s returns an item of a tuple" % name)
             else:
                 s.events.append(("EReturn", None))
             paths.append((s.events, s.trail))
@@ -1007,13 +1276,25 @@ class Exec:
             raise Abort("%s has no path" % name)
         pos = {pname: j for j, (pname, _t, _p) in enumerate(params)}
         tpos = [pos[fx.labels[i]] for i in fx.tparams]
+        sig_params = [i for i in fx.params if i not in fx.late_params]
+        param_pos = [pos[fx.labels[i]] for i in sig_params]
+        used = set()
+        for evs, _tr in paths:
+            for ev in evs:
+                for x in ev[1:]:
+                    if isinstance(x, int) and not isinstance(x, bool):
+                        used.add(x)
+                    elif isinstance(x, list):
+                        used.update(y for y in x if y is not None)
+        mentioned_pos = [pos[fx.labels[i]] for i in sig_params if i in used]
         rk = RET_KIND.get(name)
         if rk:
             for evs, _tr in paths:
                 r = evs[-1][1]
                 if r is not None and fx.kinds.get(r) != rk:
                     raise Abort("%s returns a value of kind %s, table says %s" % (name, fx.kinds.get(r), rk))
-        self.summaries[name] = {"ret": "ptr" if rtype.endswith("*") else rtype, "tparam_pos": tpos}
+        self.summaries[name] = {"ret": "ptr" if (rtype.endswith("*") and rtype.startswith("PyObject")) else rtype,
+                                "tparam_pos": tpos, "param_pos": param_pos, "mentioned_pos": mentioned_pos}
         return fx, paths
 
 
@@ -1029,7 +1310,7 @@ def coq_ev(e):
         return "EAssumeSlot %d %s" % (e[1], "true" if e[2] else "false")
     if k == "ECall":
         ret = "None" if e[3] is None else "(Some %d)" % e[3]
-        return "ECall %d [%s] %s" % (e[1], "; ".join(str(a) for a in e[2]), ret)
+        return "ECall %d [%s] %s" % (e[1], "; ".join("None" if a is None else "Some %d" % a for a in e[2]), ret)
     return "%s %s" % (k, " ".join(str(x) for x in e[1:]))
 
 
@@ -1038,16 +1319,39 @@ def extract(repo=None):
     path = os.path.join(repo or C.REPO, SOURCE)
     text = strip_comments(open(path).read())
     ex = Exec(text, find_macros(text), {})
-    fns, desc = [], []
-    for name in FUNCS:
-        fx, paths = ex.function(name)
-        fns.append((name, fx, paths))
-        desc.append({"name": name, "id": FN_ID[name], "notes": fx.notes, "vars": fx.labels, "params": fx.params, "tparams": fx.tparams,
-                     "paths": [{"trail": tr, "events": [coq_ev(e) for e in evs]} for evs, tr in paths]})
+    got, desc = {}, []
+    for name in ALL_FUNCS:
+        try:
+            fx, paths = ex.function(name)
+        except Abort as e:
+            if name not in EXT_FUNCS:
+                raise
+            # stays an entry of the API table; reported in the evidence
+            ex.failed[name] = str(e)
+            ex.summaries.pop(name, None)
+            continue
+        got[name] = (fx, paths)
+    fns = []
+    for name in FUNCS + EXT_FUNCS:
+        if name in got:
+            fx, paths = got[name]
+            fns.append((name, fx, paths))
+            desc.append({"name": name, "id": FN_ID[name], "notes": fx.notes, "vars": fx.labels, "params": fx.params,
+                         "sig_params": [i for i in fx.params if i not in fx.late_params], "tparams": fx.tparams,
+                         "paths": [{"trail": tr, "events": [coq_ev(e) for e in evs]} for evs, tr in paths]})
+        else:
+            fns.append((name, None, []))
+            desc.append({"name": name, "id": FN_ID[name], "table_entry": ex.failed[name], "notes": [], "vars": [],
+                         "params": [], "sig_params": [], "tparams": [], "paths": []})
     lines = ["(* GENERATED on every run by harness/translate/cskeleton.py from",
              "   src/zope/interface/_zope_interface_coptimizations.c -- do not edit. *)",
              "From Coq Require Import List.", "Import ListNotations.", "From ZI Require Import Model.Own.", ""]
     for name, fx, paths in fns:
+        if fx is None:
+            lines.append("(* %s: NOT extracted (%s); it stays an entry of the API table *)" % (name, ex.failed[name].replace("*)", "* )")))
+            lines.append("Definition fn_%s : fn := mkFn %d [] []." % (name.strip("_"), FN_ID[name]))
+            lines.append("")
+            continue
         lines.append("(* %s: variables %s *)" % (name, ", ".join("%d=%s" % (i, l) for i, l in enumerate(fx.labels))))
         lines.append("Definition fn_%s : fn := mkFn %d [%s] [" % (
             name.strip("_"), FN_ID[name], "; ".join(map(str, fx.params))))
